@@ -24,3 +24,70 @@ package trie2
 //@   ensures same_length: result == nil ==> len(keys) == len(values)
 //@   ensures non_decreasing: result == nil ==> (forall j int :: 0 <= j && j < len(keys) - 1 ==> feltCmp(*keys[j], *keys[j+1]) <= 0)
 //@   ensures no_empty_leaf: result == nil ==> (forall j int :: 0 <= j && j < len(values) ==> values[j] != nil && *values[j] != felt.Zero)
+
+// ---- one step of the proof walk (C10) --------------------------------------------------------------
+// get(node, key, false) follows the key by ONE node: an edge is followed only if its path is a
+// prefix of what is left of the key, and then consumes exactly its length; a binary node hands out
+// the child selected by the key's next bit and consumes that bit; hash and value nodes end the
+// walk without consuming anything. (With skipResolved the function loops; that form is not under
+// contract.)
+// An edge matches what is left of the key iff the two agree on their common length (EdgeNode.PathMatches
+// is Path.EqualMSBs(key), inlined here and checked against EqualMSBs' contract).
+//@ pure func edgeMatch(p bv256, plen uint8, k bv256, klen uint8) bool = (p >> (plen - min(plen, klen))) == (k >> (klen - min(plen, klen)))
+//@ func get
+//@   props C10
+//@   arith bv
+//@   nosafe
+//@   requires key != nil && trieutils.wf(key) && !skipResolved
+//@   requires edge_wf: istype(rn, *trienode.EdgeNode) ==> cast(rn, *trienode.EdgeNode) != nil && cast(rn, *trienode.EdgeNode).Path != nil && trieutils.wf(cast(rn, *trienode.EdgeNode).Path) && cast(rn, *trienode.EdgeNode).Path != key
+//@   requires binary_wf: istype(rn, *trienode.BinaryNode) ==> cast(rn, *trienode.BinaryNode) != nil
+//@   modifies key.len, key.words
+//@   loop 1: invariant first_iteration: rn == old(rn) && key.len == old(key.len) && trieutils.val(key) == old(trieutils.val(key)) && trieutils.wf(key)
+//@   ensures edge_mismatch: old(istype(rn, *trienode.EdgeNode) && !edgeMatch(trieutils.val(cast(rn, *trienode.EdgeNode).Path), cast(rn, *trienode.EdgeNode).Path.len, trieutils.val(key), key.len)) ==> result == nil && key.len == old(key.len) && trieutils.val(key) == old(trieutils.val(key))
+//@   ensures edge_followed_child: old(istype(rn, *trienode.EdgeNode) && edgeMatch(trieutils.val(cast(rn, *trienode.EdgeNode).Path), cast(rn, *trienode.EdgeNode).Path.len, trieutils.val(key), key.len) && cast(rn, *trienode.EdgeNode).Path.len <= key.len) ==> result == old(cast(rn, *trienode.EdgeNode).Child)
+//@   ensures edge_followed_len: old(istype(rn, *trienode.EdgeNode) && edgeMatch(trieutils.val(cast(rn, *trienode.EdgeNode).Path), cast(rn, *trienode.EdgeNode).Path.len, trieutils.val(key), key.len) && cast(rn, *trienode.EdgeNode).Path.len <= key.len) ==> key.len == old(key.len) - old(cast(rn, *trienode.EdgeNode).Path.len)
+//@   ensures edge_followed_bits: old(istype(rn, *trienode.EdgeNode) && edgeMatch(trieutils.val(cast(rn, *trienode.EdgeNode).Path), cast(rn, *trienode.EdgeNode).Path.len, trieutils.val(key), key.len) && cast(rn, *trienode.EdgeNode).Path.len <= key.len) ==> trieutils.val(key) == old(trieutils.val(key)) & trieutils.ones(key.len)
+//@   ensures binary_step: old(istype(rn, *trienode.BinaryNode) && key.len > 0) ==> key.len == old(key.len) - 1 && trieutils.val(key) == old(trieutils.val(key)) & trieutils.ones(key.len) && (old((trieutils.val(key) >> (key.len - 1)) & bv(1, 256)) == bv(1, 256) ==> result == old(cast(rn, *trienode.BinaryNode).Children[1])) && (old((trieutils.val(key) >> (key.len - 1)) & bv(1, 256)) == bv(0, 256) ==> result == old(cast(rn, *trienode.BinaryNode).Children[0]))
+//@   ensures ends_walk: old(istype(rn, *trienode.HashNode) || istype(rn, *trienode.ValueNode)) ==> result == old(rn) && key.len == old(key.len) && trieutils.val(key) == old(trieutils.val(key))
+// The two clauses that compare the inlined EqualMSBs with edgeMatch are 256-bit shifter equivalences
+// (see core/trie.verifyEdgePath): bounded stand-ins.
+//@   bounded edge_mismatch: key.len <= 16 && (istype(rn, *trienode.EdgeNode) ==> cast(rn, *trienode.EdgeNode).Path.len <= 16)
+//@   bounded edge_followed_len: key.len <= 16 && (istype(rn, *trienode.EdgeNode) ==> cast(rn, *trienode.EdgeNode).Path.len <= 16)
+//@   bounded edge_followed_child: key.len <= 16 && (istype(rn, *trienode.EdgeNode) ==> cast(rn, *trienode.EdgeNode).Path.len <= 16)
+//@   ensures wf_kept: trieutils.wf(key)
+
+// ---- VerifyProof never takes a cached hash for a node's hash (C10) --------------------------------
+// Proof nodes are untrusted objects; the hash cached on them (Flags.Hash, copied along by Prove)
+// is part of the object. VerifyProof must recompute each node's hash from its content
+// (hasher.proofHash) and never ask the cache-trusting hasher.hash. This is the obligation that
+// fails on the code before the fix of defect F10 (a tampered node that kept its cached hash
+// verified and yielded a forged value).
+//@ func (*hasher).hash
+//@   trusted
+//@   logged as CachedHash
+//@ func (*hasher).proofHash
+//@   trusted
+//@   logged as RecomputedHash
+//@ func newHasher
+//@   trusted
+// Proof sets hold well-formed nodes (assumption on how they are built).
+//@ extern func github.com/NethermindEth/juno/utils.(*OrderedSet).Get
+//@   ensures result1 && istype(result0, *trienode.EdgeNode) ==> cast(result0, *trienode.EdgeNode) != nil && cast(result0, *trienode.EdgeNode).Path != nil && trieutils.wf(cast(result0, *trienode.EdgeNode).Path) && fresh(cast(result0, *trienode.EdgeNode).Path) == false
+//@   ensures result1 && istype(result0, *trienode.BinaryNode) ==> cast(result0, *trienode.BinaryNode) != nil
+//@ extern func github.com/NethermindEth/juno/core/trie2/trieutils.(*BitArray).SetFelt
+//@   requires b != nil
+//@   modifies b.len, b.words
+//@   ensures result == b && trieutils.wf(b)
+//@ extern func github.com/NethermindEth/juno/core/felt.(*Felt).String
+//@ func VerifyProof
+//@   props C10
+//@   arith int
+//@   nosafe
+//@   requires root != nil && key != nil && proof != nil
+//@   modifies *
+//@   assigns calls_RecomputedHash, arg_RecomputedHash_original
+//@   purecallback hash
+//@   loop 1: invariant no_cached_hash_used: calls_CachedHash == old(calls_CachedHash) && calls_RecomputedHash >= old(calls_RecomputedHash)
+//@   loop 1: invariant key: keyBits != nil && fresh(keyBits) && trieutils.wf(keyBits)
+//@   ensures recomputed_never_cached: calls_CachedHash == old(calls_CachedHash)
+//@   ensures every_node_rehashed: result1 == nil && result0 != felt.Zero ==> calls_RecomputedHash > old(calls_RecomputedHash)
